@@ -10,7 +10,7 @@ THEORY = ["theories/Base/ListExtra.v", "theories/Base/Bytes.v", "theories/Base/C
 
 def case_text(c, seed):
     s = "seed %d\ncase %s pkgs pkg=%s comp=%s n=%d extra=%d seed=%d%s\n" % (seed, c["id"], c["pkg"], c["comp"], c["n"], c["extra"], c["seed"],
-                                                                             ((" idgap=%d" % c["idgap"]) if c.get("idgap") else "") + ((" cmax=%d" % c["cmax"]) if c.get("cmax") else "") + ((" orphans=%d" % c["orphans"]) if c.get("orphans") else ""))
+                                                                             ((" idgap=%d" % c["idgap"]) if c.get("idgap") else "") + ((" cmax=%d" % c["cmax"]) if c.get("cmax") else "") + ((" orphans=%d" % c["orphans"]) if c.get("orphans") else "") + ((" vs=%s" % c["vs"]) if c.get("vs") else ""))
     for op in c.get("ops", []):
         s += " ".join(op) + "\n"
     return s + "end\n"
@@ -18,10 +18,10 @@ def case_text(c, seed):
 
 def parse_replay(path):
     cases = []
-    for m in re.finditer(r"case (\S+) pkgs pkg=(\S+) comp=(\S+) n=(\d+) extra=(\d+) seed=(\d+)(?: idgap=(\d+))?(?: cmax=(\d+))?(?: orphans=(\d+))?\n((?:(?!end).*\n)*)end", open(path).read()):
-        ops = [tuple(l.split(" ")) for l in m.group(10).splitlines() if l and not l.startswith("#")]
+    for m in re.finditer(r"case (\S+) pkgs pkg=(\S+) comp=(\S+) n=(\d+) extra=(\d+) seed=(\d+)(?: idgap=(\d+))?(?: cmax=(\d+))?(?: orphans=(\d+))?(?: vs=(\w+))?\n((?:(?!end).*\n)*)end", open(path).read()):
+        ops = [tuple(l.split(" ")) for l in m.group(11).splitlines() if l and not l.startswith("#")]
         cases.append(dict(id=m.group(1), pkg=m.group(2), comp=m.group(3), n=int(m.group(4)), extra=int(m.group(5)), seed=int(m.group(6)),
-                          idgap=int(m.group(7) or 0), cmax=int(m.group(8) or 0), orphans=int(m.group(9) or 0), ops=ops))
+                          idgap=int(m.group(7) or 0), cmax=int(m.group(8) or 0), orphans=int(m.group(9) or 0), vs=m.group(10), ops=ops))
     return cases
 
 
